@@ -7,6 +7,7 @@ import Distill.Model.DocFilters
 import Distill.Model.TableClass
 import Distill.Gen.Funcs
 import Distill.Model.Embed
+import Distill.Model.Markup
 namespace Distill.Slices
 open Distill Distill.Proto
 
@@ -118,12 +119,52 @@ def embedSlice : P String := do
     twAnchorRoot := rootFn ta, tweetIdFromUrl := idFor ta none }
   pure s!"tw={optStr (twitterExtract a)} vm={optStr (unwrapGen (Gen.vimeoExtract a))} yt={optStr (unwrapGen (Gen.youtubeExtract a))} dec={optStr (embedDecision a)}"
 
+def imageP : P MImage := do
+  let u ← str; let su ← str; let t ← str; let c ← str; let w ← int; let h ← int
+  pure { url := u, secureUrl := su, type := t, caption := c, width := w, height := h }
+
+def articleP : P MArticle := do
+  let p ← str; let m ← str; let e ← str; let s ← str
+  let n ← nat
+  let au ← many n str
+  pure { published := p, modified := m, expiration := e, sect := s, authors := au }
+
+def sourceP : P MSource := do
+  let title ← str; let type ← str; let url ← str; let d ← str; let p ← str; let c ← str; let a ← str
+  let ni ← nat
+  let imgs ← many ni imageP
+  let hasArt ← bool
+  let art ← if hasArt then (do let x ← articleP; pure (some x)) else pure none
+  let oo ← bool
+  pure { title := title, type := type, url := url, description := d, publisher := p, copyright := c,
+         author := a, images := imgs, article := art, optOut := oo }
+
+def imgStr (i : MImage) : String := s!"[{hex i.url} {hex i.secureUrl} {hex i.type} {hex i.caption} {i.width} {i.height}]"
+def artStr (a : MArticle) : String :=
+  s!"({hex a.published} {hex a.modified} {hex a.expiration} {hex a.sect} {a.authors.map hex})"
+
+/-- `markup n source*` → the combined record -/
+def markupSlice : P String := do
+  let n ← nat
+  let srcs ← many n sourceP
+  let i := combine srcs
+  pure s!"{hex i.title} {hex i.type} {hex i.url} {hex i.description} {hex i.publisher} {hex i.copyright} {hex i.author} {artStr i.article} {i.images.map imgStr}"
+
+/-- `oggate title type url nImages` -/
+def ogGateSlice : P String := do
+  let t ← str; let ty ← str; let u ← str; let n ← int
+  match Gen.ogGate { title := t, type := ty, url := u, nImages := n } with
+  | some b => pure s!"ok {bstr b}"
+  | none => pure "gen-untranslated"
+
 def dispatch (slice : String) : Option (P String) :=
   match slice with
   | "docfilters" => some docfilters
   | "tableclass" => some tableclass
   | "rootdomain" => some rootdomain
   | "embed" => some embedSlice
+  | "markup" => some markupSlice
+  | "oggate" => some ogGateSlice
   | _ => none
 
 def answer (line : String) : String :=
